@@ -1,0 +1,5 @@
+//go:build !verif
+
+package graphql
+
+func verifYield(string) {}
